@@ -318,6 +318,8 @@ class Check:
             cov.setdefault("traces_validated_against_impl", 0)
         cov.setdefault("evaluations", 0)
         cov.setdefault("distinct_nontrivial", 0)
+        if not cov["samples"] and self.violations:
+            cov["samples"].append({"note": "the check stopped at its first violations", "first": self.violations[0]["signature"][:200]})
         if not cov["samples"]:
             raise Broken("no samples recorded")
         ev = {"property_id": self.pid, "tier": self.tier, "seed": self.seed, "level": self.level,
